@@ -421,6 +421,10 @@ def unsigned_bound(e):
     return None
 
 
+def _signed_val(v):
+    return v.as_signed_long() if z3.is_bv_value(v) else v.as_long()
+
+
 class SymInt:
     __slots__ = ('e',)
 
@@ -566,6 +570,10 @@ class SymInt:
     def __hash__(self):
         if E() is not None and E().symkeys:
             return 0
+        if E() is not None and self.e.size() > 5:
+            # a wide symbolic integer used as a key (dict, set, cache): followed under-approximately for two solver-chosen
+            # values (a path each); the path of all remaining values ends as inconclusive - never as discharged
+            return hash(_signed_val(E().concretize(self.e, cap=1)))
         return hash(self.__index__())
 
     def bit_length(self):
@@ -929,7 +937,12 @@ class SymBytes:
     def __hash__(self):
         if E() is not None and E().symkeys:
             return 0
-        raise Unmodelled('hash of symbolic bytes')
+        if E() is None:
+            raise Unmodelled('hash of symbolic bytes')
+        # symbolic bytes used as a key (dict, set, cache): followed under-approximately for two solver-chosen values (a path
+        # each, the bytes then being fixed on that path); the path of all remaining values ends as inconclusive
+        v = E().concretize(self.bv(), cap=1)
+        return hash(v.as_long().to_bytes(len(self), 'big'))
 
     def __bool__(self):
         return len(self) > 0
